@@ -1,6 +1,7 @@
 //! verif-harness: drives the real incan code for the correspondence checks.
 //! usage: verif-harness <property> <tier> <seed> <outfile> [extra...]
 mod c01;
+mod c01feat;
 mod c03;
 mod c04;
 mod c05;
